@@ -423,6 +423,7 @@ func (s *Store[K, V]) setShardWithoutLock(shard *Shard[K, V], hash uint64, key K
 		exist.value = value
 		old := exist.weight.Swap(cost)
 		result.oldCost = old
+		s.invalidateSecondary(key, nvmClean)
 		return result
 	}
 
@@ -458,9 +459,19 @@ func (s *Store[K, V]) setShardWithoutLock(shard *Shard[K, V], hash uint64, key K
 	entry.weight.Store(cost)
 	entry.policyWeight = 0
 	shard.set(entry.key, entry)
+	s.invalidateSecondary(key, nvmClean)
 	result.entry = entry
 	result.exists = false
 	return result
+}
+
+// invalidateSecondary drops the secondary cache's copy of a key whose value was
+// just replaced in memory (not when the value itself came from the secondary
+// cache), so that an older copy can never be served later. Shard lock held.
+func (s *Store[K, V]) invalidateSecondary(key K, nvmClean bool) {
+	if s.secondaryCache != nil && !nvmClean {
+		_ = s.secondaryCache.Delete(key)
+	}
 }
 
 func (s *Store[K, V]) toPolicy(result setShardResult[K, V], shard *Shard[K, V], hash uint64, cost, expire int64, nvmClean bool) {
